@@ -23,6 +23,10 @@ Clause → theorem
   2-D: unit circle, first point on the positive first axis        circle_unit, circle_first_point
   2-D: the n equally spaced directions are pairwise distinct      circle_points_distinct
   2-D IFORM: largest first variable = first point = Q₀(Φ(β))      iform_max_first_variable
+  … and Q₀(Φ(β)) = Q₀(1-α) given Φ(Φ⁻¹(1-α)) = 1-α               iform_first_point_is_marginal_quantile,
+                                                                  iform_max_first_variable_is_marginal_quantile
+  Φ(Φ⁻¹(1-α)) = 1-α for scipy's norm.cdf/ppf                      observed per run (oracle compares with icdf(1-α))
+  TransformedModel branch of IFORMContour._compute                not modelled here (C16 covers it)
   n_dim ≥ 3: NSphere returns unit vectors (normalised rows of one
   of the visited states)                                          normalize_unit, bestState_mem, bestState_unit
   distinct directions, n_dim ≥ 3 (NSphere)                        observed per run (partial)
@@ -190,6 +194,31 @@ theorem iform_max_first_variable (Q0 Φ : ℝ → ℝ) (hmono : Monotone fun u =
   rw [Real.cos_zero]
   have := Real.cos_le_one φ
   nlinarith
+
+/-- **the first 2-D IFORM point is the marginal (1-α)-quantile**: with `β = Φ⁻¹(1-α)` and `Φ` a right inverse
+of `Φ⁻¹` AT `1-α` (`Φ(Φ⁻¹(1-α)) = 1-α`; this direction is not given by `hΦ` of `contour_rosenblatt_image`,
+which only has `Φ⁻¹ ∘ Φ = id`), the first coordinate of the point at angle 0 is `Q₀(1-α)`. -/
+theorem iform_first_point_is_marginal_quantile (Q0 Φ Φinv : ℝ → ℝ) (oma : ℝ)
+    (hright : Φ (Φinv oma) = oma) : Q0 (Φ (Φinv oma * Real.cos 0)) = Q0 oma := by
+  rw [Real.cos_zero, mul_one, hright]
+
+/-- **2-D IFORM: every point's first coordinate is at most the marginal (1-α)-quantile `Q₀(1-α)`, and the
+first point attains it** (the clause "the largest first-variable value on a 2-D IFORM contour is exactly that
+variable's marginal (1-alpha)-quantile" at full strength, for `α ≤ 1/2` i.e. `β = Φ⁻¹(1-α) ≥ 0`). -/
+theorem iform_max_first_variable_is_marginal_quantile (Q0 Φ Φinv : ℝ → ℝ)
+    (hmono : Monotone fun u => Q0 (Φ u)) (oma : ℝ) (hβ : 0 ≤ Φinv oma) (hright : Φ (Φinv oma) = oma)
+    (angles : List ℝ) :
+    (∀ φ ∈ 0 :: angles, Q0 (Φ (Φinv oma * Real.cos φ)) ≤ Q0 oma) ∧
+      ((0 :: angles).map fun φ => Q0 (Φ (Φinv oma * Real.cos φ))).head? = some (Q0 oma) := by
+  have h0 := iform_first_point_is_marginal_quantile Q0 Φ Φinv oma hright
+  refine ⟨fun φ _ => ?_, by simp only [List.map_cons, List.head?_cons]; rw [h0]⟩
+  rw [← h0]
+  exact iform_max_first_variable Q0 Φ hmono (Φinv oma) hβ φ
+
+/-- non-vacuity of the hypotheses of `iform_max_first_variable_is_marginal_quantile`: identity leaves -/
+example : (∀ φ ∈ (0 : ℝ) :: [1, 2], id (id (id (1 : ℝ) * Real.cos φ)) ≤ id 1) ∧
+    (((0 : ℝ) :: [1, 2]).map fun φ => id (id (id (1 : ℝ) * Real.cos φ))).head? = some (id 1) :=
+  iform_max_first_variable_is_marginal_quantile id id id monotone_id 1 (by norm_num [id]) rfl [1, 2]
 
 /-! ### NSphere (n_dim ≥ 3): the returned points are unit vectors -/
 
